@@ -480,6 +480,8 @@ func tokenTexts() []string {
 		`""`, `"a"`, `"abcdefghijklmnopqrstuvwxyz0123456789"`, `"\n"`, `"a\tb"`, `"\"\\\/\b\f\n\r\t"`, `"A"`, `"éx"`, `"€"`, `"😀"`,
 		`"\ud83d"`, `"\ude00"`, `"é"`, `"€"`, `"😀"`, "\"\x80\"", "\"a\xffb\"", `"a\u0000b"`, `"\\u0041"`, `"x\\"`,
 		`[]`, `{}`, `[[]]`, `{"a":{}}`, `[1,2]`, `{"a":1,"b":[true,null]}`, `{"a":1,"a":2}`,
+		// strings spelled like other tokens, plain and with one character escaped (slow path)
+		`"true"`, `"false"`, `"null"`, `"0"`, `"-1"`, `"1.5e3"`, `"[]"`, `"{}"`, `"tru\u0065"`, `"\u006eull"`, `"fal\u0073e"`, `"1\u0032"`, `{"true":"null","null":"false","12":"-3"}`,
 	} {
 		out = append(out, s)
 	}
